@@ -54,9 +54,9 @@ CLAIMED = {
     ),
     "C20": dict(
         category="fault_enumeration",
-        text="Fault injection at the solver seam: an exception from {ValueError, FloatingPointError, MemoryError, KeyboardInterrupt} raised at solver entry, instead of the k-th objective/gradient/constraint/Jacobian/Hessian callback, or after SciPy returned; for the enumerated scenarios EVERY site 1..K (K from a fault-free dry run) x every class is injected; seeded runs add double faults, faults inside increased_recursion_limit, scripted callback orders and the SLSQP->trust-constr retry entry. Oracles: FAILED-or-propagate when the exception left the solver; showwarning hook identity and recursion limit after every operation; every later solve equals the pristine-process baseline.",
+        text="Fault injection at the solver seam: an exception from {ValueError, FloatingPointError, MemoryError, KeyboardInterrupt} raised at solver entry, instead of the k-th objective/gradient/constraint/Jacobian/Hessian callback, part-way inside the k-th callback (at the j-th line executed in optyx's compiled closures), or after SciPy returned; for the enumerated scenarios EVERY site 1..K (K from a fault-free dry run) x every class is injected; seeded runs add double faults, faults inside increased_recursion_limit, scripted callback orders and the SLSQP->trust-constr retry entry. Oracles: FAILED-or-propagate when the exception left the solver; showwarning hook identity and recursion limit after every operation; every later solve equals the pristine-process baseline.",
         design_ref="DESIGN.md §5/C20",
-        note=_TRUST + " Fault model is the property's (solver or callback raises); asynchronous exceptions inside optyx's own frames are not injected.",
+        note=_TRUST + " Fault model is the property's (solver or callback raises, also part-way inside a callback); exceptions landing in optyx's solver-module frames outside a callback are not injected.",
         technique="deterministic simulation: fault enumeration at the solver seam + recovery vs pristine-process baseline",
     ),
     "C14": dict(
